@@ -11,7 +11,7 @@ NESTED_KINDS = ['list', 'dict', 'tuple']
 BAD_KINDS = ['obj', 'set', 'complex']
 
 
-def gen_value(rng, depth=0, allow_bad=False):
+def gen_value(rng, depth=0, allow_bad=False, with_bytes=False):
     kinds = list(SCALAR_KINDS)
     if depth < 2:
         kinds += NESTED_KINDS
@@ -42,11 +42,13 @@ def gen_value(rng, depth=0, allow_bad=False):
         return {'k': k, 'v': [rng.randint(0, 9) for _ in range(rng.randint(0, 4))],
                 't': rng.choice(['int16', 'float64', 'uint8']), 'two_d': rng.random() < 0.3}
     if k == 'bytes':
-        return {'k': k, 'v': rng.choice(['abc', '', 'zoé'])}
+        # bytes are a value kind of C13 only (its quantifier names them; whether they are stored as text or
+        # refused as non-serialisable is left open, see apply_meta_op); everywhere else they are drawn as text
+        return {'k': k if with_bytes else 'str', 'v': rng.choice(['abc', '', 'zoé'])}
     if k in ('list', 'tuple'):
-        return {'k': k, 'v': [gen_value(rng, depth + 1) for _ in range(rng.randint(0, 3))]}
+        return {'k': k, 'v': [gen_value(rng, depth + 1, with_bytes=with_bytes) for _ in range(rng.randint(0, 3))]}
     if k == 'dict':
-        return {'k': k, 'v': {rng.choice(['x', 'y', 'ž']): gen_value(rng, depth + 1)
+        return {'k': k, 'v': {rng.choice(['x', 'y', 'ž']): gen_value(rng, depth + 1, with_bytes=with_bytes)
                               for _ in range(rng.randint(0, 2))}}
     raise ValueError(k)
 
@@ -89,11 +91,27 @@ def build_value(s):
     raise ValueError(k)
 
 
-def gen_dict(rng, n=None, allow_bad=False):
+def has_bytes(spec):
+    """does a value spec (or a dict of value specs) contain a bytes value anywhere?"""
+    if isinstance(spec, dict) and 'k' in spec and isinstance(spec['k'], str):
+        if spec['k'] == 'bytes':
+            return True
+        v = spec.get('v')
+        if spec['k'] in ('list', 'tuple'):
+            return any(has_bytes(x) for x in v)
+        if spec['k'] == 'dict':
+            return any(has_bytes(x) for x in v.values())
+        return False
+    if isinstance(spec, dict):
+        return any(has_bytes(x) for x in spec.values())
+    return False
+
+
+def gen_dict(rng, n=None, allow_bad=False, with_bytes=False):
     n = rng.randint(0, 3) if n is None else n
     d = {}
     for _ in range(n):
-        d[rng.choice(KEYS)] = gen_value(rng)
+        d[rng.choice(KEYS)] = gen_value(rng, with_bytes=with_bytes)
     if allow_bad:
         d[rng.choice(KEYS)] = gen_value(rng, allow_bad=True)
     return d
@@ -103,12 +121,12 @@ def build_dict(spec):
     return {k: build_value(v) for k, v in spec.items()}
 
 
-def gen_meta_op(rng, with_bad=True):
+def gen_meta_op(rng, with_bad=True, with_bytes=False):
     r = rng.random()
     if r < 0.22:
-        return {'op': 'meta_set', 'key': rng.choice(KEYS), 'value': gen_value(rng)}
+        return {'op': 'meta_set', 'key': rng.choice(KEYS), 'value': gen_value(rng, with_bytes=with_bytes)}
     if r < 0.40:
-        return {'op': 'meta_update', 'd': gen_dict(rng), 'kw': rng.random() < 0.25}
+        return {'op': 'meta_update', 'd': gen_dict(rng, with_bytes=with_bytes), 'kw': rng.random() < 0.25}
     if r < 0.47:
         return {'op': 'meta_update', 'd': {}, 'kw': False}
     if r < 0.62:
@@ -118,8 +136,29 @@ def gen_meta_op(rng, with_bad=True):
     if r < 0.84:
         return {'op': 'meta_del', 'key': rng.choice(KEYS)}
     if r < 0.92 and with_bad:
-        return {'op': 'meta_update', 'd': gen_dict(rng, allow_bad=True), 'kw': False, 'bad': True}
-    return {'op': 'meta_set', 'key': rng.choice(KEYS), 'value': gen_value(rng)}
+        return {'op': 'meta_update', 'd': gen_dict(rng, allow_bad=True, with_bytes=with_bytes), 'kw': False, 'bad': True}
+    return {'op': 'meta_set', 'key': rng.choice(KEYS), 'value': gen_value(rng, with_bytes=with_bytes)}
+
+
+def state_diff(pre, post):
+    """first difference between two snapshots of an array directory where metadata.json is compared by
+    meaning (a refused or no-op call may rewrite it in another layout), everything else byte for byte"""
+    from .oracles import snap_diff
+    d = snap_diff({k: v for k, v in pre.items() if k != 'metadata.json'},
+                  {k: v for k, v in post.items() if k != 'metadata.json'})
+    if d:
+        return d
+    a, b = pre.get('metadata.json'), post.get('metadata.json')
+    if (a is None) != (b is None):
+        return ('removed' if b is None else 'added') + ':metadata.json'
+    if a is not None and a != b:
+        try:
+            ja, jb = json.loads(a[2]), json.loads(b[2])
+        except Exception:
+            return 'changed:metadata.json (not parsable)'
+        if not json_equal(ja, jb):
+            return 'changed:metadata.json'
+    return None
 
 
 META_OPS = ('meta_set', 'meta_update', 'meta_pop', 'meta_popitem', 'meta_del')
@@ -164,6 +203,9 @@ def apply_meta_op(op, md, model):
                 return 'raised', ('meta.nonserialisable', f'wrong_class:{type(exc).__name__}', str(exc)[:200])
             return 'rejected', None       # caller checks unchanged
         if exc is not None:
+            if isinstance(exc, TypeError) and has_bytes(op['value'] if kind == 'meta_set' else op['d']):
+                # bytes: either stored as text or refused like any non-serialisable value (then nothing may change)
+                return 'rejected', None
             return 'raised', ('meta.update', f'raises:{type(exc).__name__}', str(exc)[:200])
         model.update(nd)
         return 'ok', None
